@@ -145,6 +145,16 @@ pub fn check(t: &Trace<'_>, out: &mut CaseOut) -> bool {
             } else {
                 msg.txs.iter().filter(|r| r.conn == ci.idx).map(|r| r.ev).collect()
             };
+            // what goes out again is the packet that was owed, not another one under its identifier
+            if !msg.releasing_at(t0) {
+                if let (Some(first), Some(again)) = (msg.txs.iter().find(|x| x.conn < ci.idx), msg.txs.iter().find(|x| x.conn == ci.idx)) {
+                    let (a, b) = (raw(t.w, first), raw(t.w, again));
+                    out.count("replays_compared_with_the_first_transmission", 1);
+                    if a.len() != b.len() || a[1..] != b[1..] || (a[0] & !8) != (b[0] & !8) {
+                        out.violations.push(viol("C05", format!("C05/not-replayed/{}/another-packet-under-its-identifier", msg.kind), format!("conn {}: op#{} id {} was owed, but what went out under its identifier is not that packet: {:02x?} first, {:02x?} now", ci.idx, msg.op, msg.pid, &a[..a.len().min(40)], &b[..b.len().min(40)])));
+                    }
+                }
+            }
             if evs.len() > 1 {
                 out.violations.push(viol("C05", format!("C05/replayed-twice/{}", msg.kind), format!("conn {}: op#{} id {} retransmitted {} times", ci.idx, msg.op, msg.pid, evs.len())));
             }
